@@ -297,6 +297,9 @@ fn main() {
                     Some(x) => x,
                     None => continue,
                 };
+                // the builders above create (and drop) the case's other stacks as well; dropping a collector does not recompute
+                // the process-wide summaries, so recompute them now that only this stack is alive
+                tracing_core::callsite::rebuild_interest_cache();
                 let replies = run_script(&d, &r, &script);
                 drop(d);
                 if n == "E-global" {
